@@ -1,6 +1,13 @@
 package tubes
 
-import "encoding/binary"
+import (
+	"encoding/binary"
+	"errors"
+)
+
+// errMalformedFrame is returned by fromBytes when the buffer cannot hold the
+// frame header plus the data length the header declares.
+var errMalformedFrame = errors.New("malformed frame") // +checklocksignore
 
 type frame struct {
 	ackNo      uint32
@@ -117,12 +124,19 @@ func (p *frame) toBytes() []byte {
 }
 
 func fromBytes(b []byte) (*frame, error) {
+	if len(b) < 12 {
+		return nil, errMalformedFrame
+	}
 	dataLength := binary.BigEndian.Uint16(b[2:4])
+	// The end offset is computed as an int: 12+dataLength wraps in uint16.
+	if 12+int(dataLength) > len(b) {
+		return nil, errMalformedFrame
+	}
 	return &frame{
 		tubeID:     b[0],
 		flags:      metaToFlags(b[1]),
 		dataLength: dataLength,
-		data:       append([]byte(nil), b[12:12+dataLength]...),
+		data:       append([]byte(nil), b[12:12+int(dataLength)]...),
 		ackNo:      binary.BigEndian.Uint32(b[4:8]),
 		frameNo:    binary.BigEndian.Uint32(b[8:12]),
 	}, nil
